@@ -31,6 +31,8 @@ PROPS = {}
 
 def prop(pid, test, level, text, note, technique, rule, q, t, need_bin=False, assumptions=None, required_labels=None, design_ref=None, exhaustive_note=None):
     rule = rule + FREQ_NOTE
+    if t.get("fuzz") and "coverage-guided" not in technique:
+        technique += "; thorough tier adds native coverage-guided fuzzing (go test -fuzz over rapid.MakeFuzz) of the same generator and oracle"
     PROPS[pid] = dict(test=test, level=level, text=text, note=note, technique=technique, rule=rule, quick=q, thorough=t,
                       need_bin=need_bin, assumptions=(assumptions or []) + COMMON_ASSUMPTIONS,
                       required_labels=required_labels or [], design_ref=design_ref or ("DESIGN.md §4 " + pid),
@@ -52,6 +54,7 @@ prop("C17", "TestC17", "exploration",
      exhaustive_note="all 15^3 codons x {lenient, strict, dictionary}; all 15^3 codons as query codon through variants x 3 reference codons x 2 strands x 2 annotation formats; all 32 accepted + 95 rejected ASCII characters")
 
 q, t = tiers(8, 8000, 16, 60000, floor_q=2000, floor_t=20000)
+t["fuzz"] = dict(target="FuzzC03", seconds=60)  # thorough: coverage-guided search over the same generator and oracle (rapid.MakeFuzz)
 prop("C03", "TestC03", "exploration",
      "Every symbol pair x gap mode x letter case x column is enumerated (6936 one-difference alignments, complete for the per-column "
      "decision), then rapid generates whole alignments (width 1..40, thorough 1..300; 1..8 records; 17-symbol alphabet in either case; "
@@ -64,6 +67,7 @@ prop("C03", "TestC03", "exploration",
      exhaustive_note="17x17 symbol pairs x {soft,hard gaps} x 4 case combinations x 3 columns")
 
 q, t = tiers(8, 6000, 16, 40000, floor_q=2000, floor_t=20000)
+t["fuzz"] = dict(target="FuzzC06", seconds=60)  # thorough: coverage-guided search over the same generator and oracle (rapid.MakeFuzz)
 prop("C06", "TestC06", "exploration",
      "rapid builds target sets that force ties (exact copies, same distance with different completeness through ambiguity padding, "
      "few mutable columns), all-N and heavily ambiguous targets at any file position, and runs plain / -n K / -d D / both / --table with "
@@ -77,6 +81,7 @@ prop("C06", "TestC06", "exploration",
      q, t, need_bin=True, required_labels=["tie-at-boundary", "boundary-tie-broken-by-completeness", "boundary-tie-broken-by-file-order", "undefined-target-present", "mode:plain", "mode:n", "mode:d", "mode:nd", "table", "targets>12"])
 
 q, t = tiers(8, 6000, 16, 40000, floor_q=1000, floor_t=10000)
+t["fuzz"] = dict(target="FuzzC07", seconds=60)  # thorough: coverage-guided search over the same generator and oracle (rapid.MakeFuzz)
 prop("C07", "TestC07", "exploration",
      "All 17x17 symbol pairs are appended as one extra column to two fixed contexts for each measure (1734 cases: complete for the per-column "
      "contribution to snp, raw and to P1/P2/Q/L of tn93); rapid then generates pairs of width 4..60 (thorough 200) over the full alphabet, with "
@@ -90,6 +95,7 @@ prop("C07", "TestC07", "exploration",
      exhaustive_note="17x17 symbol pairs x 2 contexts x 3 measures")
 
 q, t = tiers(8, 6000, 16, 50000, floor_q=2000, floor_t=20000)
+t["fuzz"] = dict(target="FuzzC10", seconds=60)  # thorough: coverage-guided search over the same generator and oracle (rapid.MakeFuzz)
 prop("C10", "TestC10", "exploration",
      "rapid generates references (A/C/G/T or with IUPAC codes) and alignments built from alternating resolved/ambiguous segments (runs at either "
      "end, length-1 runs, runs one base apart, all-ambiguous rows, random rows); each output row is parsed and the sequence reconstructed "
@@ -119,6 +125,7 @@ prop("C16", "TestC16", "exploration",
      q, t, required_labels=["kind:layout", "kind:blank", "kind:corrupt", "spec:accept", "spec:reject", "spec:free"])
 
 q, t = tiers(8, 2500, 16, 30000, floor_q=5000, floor_t=50000, q_timeout=600, t_timeout=3000)
+t["fuzz"] = dict(target="FuzzC01", seconds=60)  # thorough: coverage-guided search over the same generator and oracle (rapid.MakeFuzz)
 prop("C01", "TestC01", "exploration",
      "rapid generates a reference (6..60 nt, thorough 400; occasionally with IUPAC codes) and 1..5 queries of 1..3 (thorough 5) records each. "
      "Every record is built from a per-query truth row: CIGAR over M,=,X,I,D,N,P with optional H/S/HS clips, lengths 1..6 (rare long ones), placed at any "
@@ -133,6 +140,7 @@ prop("C01", "TestC01", "exploration",
                             "disjoint-records", "conflicting-bases", "noise:unmapped", "noise:secondary", "pad", "window", "wrap", "threads>1", "pos=1", "ends-at-L"])
 
 q, t = tiers(8, 3500, 16, 30000, floor_q=3000, floor_t=30000)
+t["fuzz"] = dict(target="FuzzC02", seconds=60)  # thorough: coverage-guided search over the same generator and oracle (rapid.MakeFuzz)
 prop("C02", "TestC02", "exploration",
      "Same alignment generator as C01 without conflicting bases and without two records sharing one insertion slot; insertions anywhere (before the "
      "first base, after the last, adjacent to D, several per record, in several records of one query, inside another record's match-only coverage). "
@@ -156,6 +164,7 @@ VAR_GEN = ("annotation model: reference 20..90 nt (thorough 300), 0..4 (thorough
            "all-gap columns) or as SAM records (C01 generator on the annotated reference, with or without --reference)")
 
 q, t = tiers(8, 3000, 16, 25000, floor_q=1000, floor_t=10000, q_timeout=400)
+t["fuzz"] = dict(target="FuzzC04", seconds=60)  # thorough: coverage-guided search over the same generator and oracle (rapid.MakeFuzz)
 prop("C04", "TestC04", "exploration",
      "Each generated case is run through variants (MSA form) or sam variants (SAM form) with --append-snps; every row is parsed and checked "
      "against a coordinate-level oracle built from base sets and the NCBI table: (a) the positions mentioned as nuc: records or inside (nuc:...) "
@@ -207,6 +216,7 @@ prop("C13", "TestC13", "exploration",
      q, t, need_bin=True, required_labels=["kind:snps", "kind:variants", "form:msa", "form:sam", "threshold-binding", "partial-frequency", "threshold-equals-a-frequency-candidate"])
 
 q, t = tiers(8, 3000, 16, 25000, floor_q=400, floor_t=4000, q_timeout=400)
+t["fuzz"] = dict(target="FuzzC14", seconds=60)  # thorough: coverage-guided search over the same generator and oracle (rapid.MakeFuzz)
 prop("C14", "TestC14", "exploration",
      "The annotation model is rendered as a GenBank flat file and as GFF3 in three dialects (segments on codon boundaries with phase 0, arbitrary "
      "boundaries with spec-correct continuation phases, both), all five location shapes, CDS or mature_protein_region_of_CDS rows, with/without "
@@ -237,6 +247,7 @@ UD_GEN = ("reference A/C/G/T of width 6..30; a pool of 2..6 (position, allele) S
           "--dist-up/-down/-side | none; --no-fill; --dist-push 1..3 (alone); --threshold-pair in {0,.1,.25,.5,1}; --threshold-target; --ignore; --table")
 
 q, t = tiers(8, 5000, 16, 30000, floor_q=1000, floor_t=10000, q_timeout=400)
+t["fuzz"] = dict(target="FuzzC08", seconds=60)  # thorough: coverage-guided search over the same generator and oracle (rapid.MakeFuzz)
 prop("C08", "TestC08", "exploration",
      "Oracle computed from the raw sequences: per (query,target) the bin from which sequence carries A/C/G/T differences from the reference the other lacks, "
      "distance = columns where both are A/C/G/T and differ, float32 pairwise ambiguity ratio, target ambiguity filter, ignore list; candidates per bin "
